@@ -20,7 +20,7 @@ def run(ctx, model_ok):
     ctx.cov["correspondence"] = st
     ctx.failing += inv_fail
     ctx.cov["oracle"] = {"invariant_evaluations_on_real_objects": st["ops"], "failures": len(inv_fail)}
-    ctx.cov["not_shown"] = ["copy() (treated under C18)", "the *_all views as pre-order flattenings (evaluated on the real objects by the invariant oracle)"]
+    ctx.cov["not_shown"] = ["copy() as a theorem (Props/C18 `inv_reachable_with_copy`; the forest stream here does contain copy() steps)", "the *_all views as pre-order flattenings (evaluated on the real objects by the invariant oracle)"]
     ctx.assumptions += ["lookup of the holder of an object goes through _parent in the model and through a depth-first search of the "
                         "children lists in the code; both agree under the proved invariant"]
 
